@@ -21,7 +21,10 @@ EXTENDS Naturals, Sequences, FiniteSets, TLC
 CONSTANTS Names,          \* abstract names
           MaxRecs,        \* max records per section
           MaxOps,         \* depth bound
-          BugEdnsShift, BugCache, BugIterUncompress, BugDelOpt, BugSkipLeft, BugRecompute
+          BugEdnsShift, BugCache, BugIterUncompress, BugDelOpt, BugSkipLeft, BugRecompute,
+          BugOptTtl,       \* set_rr_ttl on the OPT record does not refresh the EDNS summary (F28)
+          BugOptName,      \* set_raw_name may give the OPT record an owner name (F27)
+          BugInsertOrder   \* insert_rr splices the bytes before it checks the record count (F10)
 
 None == "none"
 NoOff == 0
@@ -37,8 +40,10 @@ NLen(r) == IF r.opt THEN 1 ELSE IF r.c THEN 2 ELSE ULen(r.nm)
 RSize(s, r) == IF s = "Q" THEN NLen(r) + 4
                ELSE IF r.opt THEN 1 + 10 + 8 * r.nopts ELSE NLen(r) + 10 + 4
 
-VARIABLES pk, view, ecnt, eflags, mc, cached, cur, bad, nops
-vars == <<pk, view, ecnt, eflags, mc, cached, cur, bad, nops>>
+VARIABLES pk, view, ecnt, eflags, mc, cached, cur, bad, nops,
+          eval,    \* the object's copy of the OPT record's extended rcode / version / flags (0 without OPT)
+          junk     \* bytes that no count covers were left in the packet
+vars == <<pk, view, ecnt, eflags, mc, cached, cur, bad, nops, eval, junk>>
 
 RECURSIVE SumSizes(_, _, _)
 SumSizes(s, recs, k) == IF k = 0 THEN 0 ELSE RSize(s, recs[k]) + SumSizes(s, recs, k - 1)
@@ -59,8 +64,9 @@ Decomp(p) == [s \in Secs |-> [i \in 1..Len(p[s]) |-> [p[s][i] EXCEPT !.c = FALSE
 IdxAt(p, s, o) == IF \E i \in 1..Len(p[s]) : RecStart(p, s, i) = o
                   THEN CHOOSE i \in 1..Len(p[s]) : RecStart(p, s, i) = o ELSE 0
 
-Rec(n, c) == [nm |-> n, c |-> c, opt |-> FALSE, nopts |-> 0]
-OptRec(k) == [nm |-> "root", c |-> FALSE, opt |-> TRUE, nopts |-> k]
+Rec(n, c) == [nm |-> n, c |-> c, opt |-> FALSE, nopts |-> 0, ev |-> 0]
+OptRec(k) == [nm |-> "root", c |-> FALSE, opt |-> TRUE, nopts |-> k, ev |-> 1]
+FreshEval(p) == IF OptIdx(p) = 0 THEN 0 ELSE p["AR"][OptIdx(p)].ev
 
 \* ---------- initial states: freshly parsed packets ----------
 InitPk == { p \in [Secs -> UNION {[1..n -> {Rec(n1, c) : n1 \in Names, c \in BOOLEAN} \cup {OptRec(1)}] : n \in 0..MaxRecs}] :
@@ -71,6 +77,7 @@ Init == /\ pk \in InitPk
         /\ view = [FreshView(pk) EXCEPT !["Q"] = FreshView(pk)["Q"]]
         /\ ecnt = FreshEcnt(pk) /\ eflags = (OptIdx(pk) # 0)
         /\ mc = TRUE /\ cached = None /\ cur = NoCur /\ bad = FALSE /\ nops = 0
+        /\ eval = FreshEval(pk) /\ junk = FALSE
 VEdns == view  \* placeholder to keep names short
 
 VARIABLE vedns
@@ -103,7 +110,7 @@ IterStart(s, incl) ==
   /\ IF CountOf(s) = 0 THEN SetCur(NoCur)
      ELSE IF view[s] = NoOff THEN bad' = TRUE /\ cur' = NoCur
      ELSE SetCur(Advance(s, view[s], CountOf(s), incl))
-  /\ UNCHANGED <<pk, view, vedns, ecnt, eflags, mc, cached>>
+  /\ UNCHANGED <<pk, view, vedns, ecnt, eflags, mc, cached, eval, junk>>
 
 IterNext ==
   /\ cur.live /\ Tick
@@ -112,9 +119,9 @@ IterNext ==
           ELSE IF view[cur.sec] = NoOff THEN bad' = TRUE /\ cur' = NoCur
           ELSE SetCur(Advance(cur.sec, view[cur.sec], CountOf(cur.sec), cur.incl))
      ELSE SetCur(Advance(cur.sec, cur.next, cur.left, cur.incl))
-  /\ UNCHANGED <<pk, view, vedns, ecnt, eflags, mc, cached>>
+  /\ UNCHANGED <<pk, view, vedns, ecnt, eflags, mc, cached, eval, junk>>
 
-IterClose == cur.live /\ cur' = NoCur /\ UNCHANGED <<pk, view, vedns, ecnt, eflags, mc, cached, bad, nops>>
+IterClose == cur.live /\ cur' = NoCur /\ UNCHANGED <<pk, view, vedns, ecnt, eflags, mc, cached, bad, nops, eval, junk>>
 
 \* decompress in place, translating an offset that sits on a record boundary of section s
 ShiftAfter(v, s, d) == [t \in Secs |-> IF v[t] # NoOff /\ SecIdx(t) > SecIdx(s) THEN v[t] + d ELSE v[t]]
@@ -129,27 +136,38 @@ Prologue(i) ==
 SetName(n) ==
   /\ cur.live /\ cur.off # NoOff /\ Tick
   /\ LET i == IdxAt(pk, cur.sec, cur.off) IN
-     IF i = 0 THEN bad' = TRUE /\ UNCHANGED <<pk, view, vedns, ecnt, eflags, mc, cached, cur>>
+     IF i = 0 THEN bad' = TRUE /\ UNCHANGED <<pk, view, vedns, ecnt, eflags, mc, cached, cur, eval, junk>>
+     ELSE IF pk[cur.sec][i].opt /\ ~BugOptName
+     THEN UNCHANGED <<pk, view, vedns, ecnt, eflags, mc, cached, cur, bad, eval, junk>>      \* refused: OPT keeps the root name
      ELSE LET pr == Prologue(i)
               old == pr.pk[cur.sec][i]
               shift == ULen(n) + 100 - NLen(old)      \* +100 to stay in Nat; subtract below
               optAfter == OptIdx(pr.pk) # 0 /\ (SecIdx(cur.sec) < 3 \/ OptIdx(pr.pk) > i)
               np == [pr.pk EXCEPT ![cur.sec][i].nm = n, ![cur.sec][i].c = FALSE]
-          IN /\ ~old.opt
-             /\ pk' = np
+          IN /\ pk' = np
              /\ view' = [t \in Secs |-> IF pr.view[t] # NoOff /\ SecIdx(t) > SecIdx(cur.sec)
                                         THEN pr.view[t] + shift - 100 ELSE pr.view[t]]
              /\ vedns' = IF pr.vedns # NoOff /\ optAfter /\ ~BugEdnsShift THEN pr.vedns + shift - 100 ELSE pr.vedns
              /\ cur' = [cur EXCEPT !.off = pr.off, !.next = pr.next + shift - 100]
              /\ mc' = FALSE
              /\ cached' = IF cur.sec = "Q" /\ ~BugCache THEN None ELSE pr.cached
-             /\ UNCHANGED <<ecnt, eflags, bad>>
+             /\ UNCHANGED <<ecnt, eflags, bad, eval, junk>>
+
+\* set_rr_ttl through the cursor: for the OPT record the TTL field *is* the extended rcode / version / flags
+SetTtl(v) ==
+  /\ cur.live /\ cur.off # NoOff /\ Tick
+  /\ LET i == IdxAt(pk, cur.sec, cur.off) IN
+     IF i = 0 THEN bad' = TRUE /\ UNCHANGED <<pk, view, vedns, ecnt, eflags, mc, cached, cur, eval, junk>>
+     ELSE IF ~pk[cur.sec][i].opt THEN UNCHANGED <<pk, view, vedns, ecnt, eflags, mc, cached, cur, bad, eval, junk>>
+     ELSE /\ pk' = [pk EXCEPT ![cur.sec][i].ev = v]
+          /\ eval' = IF BugOptTtl THEN eval ELSE v
+          /\ UNCHANGED <<view, vedns, ecnt, eflags, mc, cached, cur, bad, junk>>
 
 Delete ==
   /\ cur.live /\ Tick
-  /\ IF cur.off = NoOff THEN UNCHANGED <<pk, view, vedns, ecnt, eflags, mc, cached, cur, bad>>   \* void record
+  /\ IF cur.off = NoOff THEN UNCHANGED <<pk, view, vedns, ecnt, eflags, mc, cached, cur, bad, eval, junk>>   \* void record
      ELSE LET i == IdxAt(pk, cur.sec, cur.off) IN
-     IF i = 0 THEN bad' = TRUE /\ UNCHANGED <<pk, view, vedns, ecnt, eflags, mc, cached, cur>>
+     IF i = 0 THEN bad' = TRUE /\ UNCHANGED <<pk, view, vedns, ecnt, eflags, mc, cached, cur, eval, junk>>
      ELSE LET pr == Prologue(i)
               old == pr.pk[cur.sec][i]
               sz == RSize(cur.sec, old)
@@ -162,6 +180,8 @@ Delete ==
                          ELSE IF pr.vedns # NoOff /\ optAfter /\ ~BugEdnsShift THEN pr.vedns - sz ELSE pr.vedns
              /\ ecnt' = IF old.opt /\ ~BugDelOpt THEN 0 ELSE ecnt
              /\ eflags' = IF old.opt /\ ~BugDelOpt THEN FALSE ELSE eflags
+             /\ eval' = IF old.opt /\ ~BugDelOpt THEN 0 ELSE eval
+             /\ junk' = junk
              /\ cur' = [cur EXCEPT !.off = NoOff, !.next = pr.off]
              /\ mc' = FALSE
              /\ cached' = IF cur.sec = "Q" /\ ~BugCache THEN None ELSE pr.cached
@@ -169,6 +189,7 @@ Delete ==
 
 IterUncompress ==
   /\ cur.live /\ cur.off # NoOff /\ Tick
+  /\ UNCHANGED <<eval, junk>>
   /\ IF ~mc THEN UNCHANGED <<pk, view, vedns, ecnt, eflags, mc, cached, cur, bad>>
      ELSE LET i == IdxAt(pk, cur.sec, cur.off) IN
           IF i = 0 THEN bad' = TRUE /\ UNCHANGED <<pk, view, vedns, ecnt, eflags, mc, cached, cur>>
@@ -178,7 +199,8 @@ IterUncompress ==
                /\ UNCHANGED <<ecnt, eflags, bad>>
 
 Insert(s, n) ==
-  /\ ~cur.live /\ Tick
+  /\ ~cur.live /\ Tick /\ eval' = eval
+  /\ junk' = (junk \/ (BugInsertOrder /\ s = "Q" /\ Len(pk["Q"]) >= 1))      \* F10: bytes spliced in, then the count check fails
   /\ IF s = "Q" /\ Len(pk["Q"]) >= 1
      THEN \* failure: decompressed but otherwise unchanged
           LET p2 == IF mc THEN Decomp(pk) ELSE pk IN
@@ -205,10 +227,10 @@ Insert(s, n) ==
 ReadQuestion ==
   /\ ~cur.live /\ Tick
   /\ cached' = IF cached # None THEN cached ELSE IF Len(pk["Q"]) = 0 THEN None ELSE pk["Q"][1].nm
-  /\ UNCHANGED <<pk, view, vedns, ecnt, eflags, mc, cur, bad>>
+  /\ UNCHANGED <<pk, view, vedns, ecnt, eflags, mc, cur, bad, eval, junk>>
 
 Recompute ==
-  /\ ~cur.live /\ Tick
+  /\ ~cur.live /\ Tick /\ UNCHANGED <<eval, junk>>
   /\ IF ~mc THEN UNCHANGED <<pk, view, vedns, ecnt, eflags, mc, cached, cur, bad>>
      ELSE LET p2 == IF BugRecompute THEN pk ELSE Decomp(pk) IN
           /\ pk' = p2 /\ view' = FreshView(p2) /\ vedns' = FreshEdns(p2) /\ mc' = FALSE /\ cached' = None
@@ -216,7 +238,7 @@ Recompute ==
 
 \* rename n1 -> n2 everywhere, output recompressed (owner equal to the question's gets a pointer)
 Rename(n1, n2) ==
-  /\ ~cur.live /\ Tick /\ Len(pk["Q"]) = 1
+  /\ ~cur.live /\ Tick /\ Len(pk["Q"]) = 1 /\ UNCHANGED <<eval, junk>>
   /\ LET mapn(x) == IF x = n1 THEN n2 ELSE x
          qn == mapn(pk["Q"][1].nm)
          p2 == [s \in Secs |-> [i \in 1..Len(pk[s]) |->
@@ -230,7 +252,7 @@ Next == \/ \E s \in {"Q", "AN", "NS", "AR"} : IterStart(s, FALSE)
         \/ IterStart("AR", TRUE)
         \/ IterNext \/ IterClose
         \/ \E n \in Names : SetName(n)
-        \/ Delete \/ IterUncompress
+        \/ Delete \/ IterUncompress \/ \E v \in {1, 2} : SetTtl(v)
         \/ \E s \in Secs, n \in Names : Insert(s, n)
         \/ ReadQuestion \/ Recompute
         \/ \E n1, n2 \in Names : n1 # n2 /\ Rename(n1, n2)
@@ -240,7 +262,9 @@ Spec == Init2 /\ [][Next]_allvars
 \* ---------- invariants (C08 at the bookkeeping level) ----------
 NoBad == ~bad
 ViewCoherent == view = FreshView(pk)
-EdnsCoherent == vedns = FreshEdns(pk) /\ ecnt = FreshEcnt(pk) /\ eflags = (OptIdx(pk) # 0)
+EdnsCoherent == vedns = FreshEdns(pk) /\ ecnt = FreshEcnt(pk) /\ eflags = (OptIdx(pk) # 0) /\ eval = FreshEval(pk)
+OptKeepsRoot == \A i \in 1..Len(pk["AR"]) : pk["AR"][i].opt => pk["AR"][i].nm = "root"
+NoJunk == ~junk
 FlagSound == ~mc => PointerFree(pk)
 CacheCoherent == cached # None => (Len(pk["Q"]) = 1 /\ cached = pk["Q"][1].nm)
 CursorCoherent == (cur.live /\ cur.off # NoOff) =>
